@@ -238,7 +238,7 @@ def model_phases(spec, nodes) -> dict:
             return float(c["delay"])
         if c["dist"][0] == "det":
             return float(onp.float32(c["dist"][1]))
-        return float(nodes[names[c["dst"]]].inputs[names[c["src"]]].delay)
+        return float(nodes[names[c["dst"]]].inputs[c.get("name") or names[c["src"]]].delay)
 
     memo = {}
 
